@@ -133,8 +133,23 @@ class Scenario:
     probe_wait: bool = False   # evaluate Parallel._wait_retrieval() at every bytecode of completion callbacks delivered
     #                            while the caller sleeps in the retrieval loop (what the caller would see if it ran there)
 
+    # completions delivered INSIDE `backend.submit` (oracle-only; round 5): ((k, how), ...) — during the k-th `submit` of the
+    # run (0-based, the caller's and the callbacks' submits counted together), before it returns and while the dispatching
+    # thread holds `Parallel._lock`, completion callbacks run re-entrantly: how = -1 the batch being submitted itself (a
+    # future-style backend whose future is already done when the callback is attached: `add_done_callback` runs it inline),
+    # -2 every parked batch oldest first, how >= 0 parked[how % len] (a backend whose `submit` drives its own event loop)
+    insub: tuple = ()
+    # the batch sizes come from the REAL `AutoBatchingMixin` mixed into the controllable backend (oracle-only; round 5): it
+    # reads the real Parallel object, keeps its statistics between the calls of a managed object and resets them in
+    # `terminate()` like the loky / multiprocessing backends; the fake clock then counts microseconds: one tick (sleep) =
+    # ab_tick_us, every `time.time()` call advances it by ab_eps_us (so that every batch has a duration > 0)
+    real_ab: bool = False
+    ab_tick_us: int = 0
+    ab_eps_us: int = 100
+
     def oracle_only(self):
-        return bool(self.instr or self.midpull_close or self.probe_wait or self.reenter or self.warn_error)
+        return bool(self.instr or self.midpull_close or self.probe_wait or self.reenter or self.warn_error or self.insub
+                    or self.real_ab)
 
     def tokens(self):
         """Flat integer encoding for the Lean driver."""
@@ -168,7 +183,9 @@ class Scenario:
                     start_guard=self.start_guard, enter_fault=self.enter_fault, enter_cls=self.enter_cls,
                     sched=[list(e) for e in self.sched], instr=[list(e) for e in self.instr],
                     midpull_close=list(self.midpull_close), probe_wait=self.probe_wait, verbose=self.verbose,
-                    sized=self.sized, reenter=self.reenter, warn_error=self.warn_error)
+                    sized=self.sized, reenter=self.reenter, warn_error=self.warn_error,
+                    **(dict(insub=[list(e) for e in self.insub]) if self.insub else {}),
+                    **(dict(real_ab=True, ab_tick_us=self.ab_tick_us, ab_eps_us=self.ab_eps_us) if self.real_ab else {}))
 
     @staticmethod
     def from_json(d):
@@ -180,7 +197,9 @@ class Scenario:
                         start_guard=bool(d.get("start_guard", True)), enter_fault=int(d.get("enter_fault", 0)), enter_cls=int(d.get("enter_cls", 0)),
                         sched=tuple(tuple(e) for e in d["sched"]), instr=tuple(tuple(e) for e in d.get("instr", ())),
                         midpull_close=tuple(d.get("midpull_close", ())), probe_wait=bool(d.get("probe_wait", False)), verbose=int(d.get("verbose", 0)),
-                        sized=bool(d.get("sized", False)), reenter=str(d.get("reenter", "")), warn_error=bool(d.get("warn_error", False)))
+                        sized=bool(d.get("sized", False)), reenter=str(d.get("reenter", "")), warn_error=bool(d.get("warn_error", False)),
+                        insub=tuple(tuple(e) for e in d.get("insub", ())), real_ab=bool(d.get("real_ab", False)),
+                        ab_tick_us=int(d.get("ab_tick_us", 0)), ab_eps_us=int(d.get("ab_eps_us", 100)))
 
 
 class _Sized:
@@ -228,12 +247,18 @@ class _FakeTime:
     def __init__(self, run):
         self.run = run
         self.now = 1000
+        self.us = 0  # real_ab scenarios: microseconds elapsed
 
     def time(self):
+        sc = self.run.sc
+        if sc.real_ab:
+            self.us += sc.ab_eps_us
+            return self.us / 1e6
         return self.now
 
     def sleep(self, _dt):
         self.now += 1
+        self.us += self.run.sc.ab_tick_us
         r = self.run
         r.first_sleep_at.setdefault(r.cur_call, len(r.log))
         before = len(r.log)
@@ -304,6 +329,10 @@ class Run:
         self.cur_fault = 0     # start-up fault of the call being made (0 outside `par(...)`)
         self.cur_cls = 0
         self.entering = False  # inside `par.__enter__()`
+        self.n_submit = 0      # submits so far (index of the `insub` entries)
+        self.insub = dict(sc.insub)
+        self.insub_fired = []
+        self.ab_ops = []       # real_ab: ("c", value, n_tasks, n_dispatched, n_workers) | ("d", batch_size, duration_us) | ("r",) | ("n", call)
 
     def ev(self, s):
         self.log.append(s)
@@ -414,6 +443,19 @@ class Run:
                 run.ev("submit " + ",".join(map(str, ids)) + (" @cb" if run.in_cb else ""))
                 run.parked.append((func, callback, ids, run.cur_call))
                 run.max_parked = max(run.max_parked, len(run.parked))
+                k = run.n_submit
+                run.n_submit += 1
+                how = run.insub.get(k)
+                if how is not None:
+                    # the completion callback(s) run inline, before `submit` returns (the dispatching thread holds the RLock)
+                    run.insub_fired.append((k, how, bool(run.in_cb)))
+                    if how == -1:
+                        run.deliver(len(run.parked) - 1)
+                    elif how == -2:
+                        while run.parked:
+                            run.deliver(0)
+                    else:
+                        run.deliver(how % len(run.parked))
                 return object()
 
             def retrieve_result_callback(self, out):
@@ -426,6 +468,31 @@ class Run:
                 run.hook("abort")  # batches still in flight may complete while the backend cancels them
                 if sc.abort_drops:
                     run.parked.clear()
+
+        if sc.real_ab:
+            from joblib._parallel_backends import AutoBatchingMixin
+
+            class CtlAuto(AutoBatchingMixin, Ctl):
+                """the real auto-batching state machine on the controllable backend"""
+
+                def compute_batch_size(self):
+                    v = AutoBatchingMixin.compute_batch_size(self)
+                    p = self.parallel
+                    run.ab_ops.append(("c", v, getattr(p, "n_tasks", None), getattr(p, "n_dispatched_tasks", 0), sc.nj))
+                    run.bs_i += 1
+                    run.hook("bs")
+                    return v
+
+                def batch_completed(self, batch_size, duration):
+                    run.ab_ops.append(("d", batch_size, int(round(duration * 1e6))))
+                    return AutoBatchingMixin.batch_completed(self, batch_size, duration)
+
+                def terminate(self):
+                    run.ev("terminate")
+                    run.ab_ops.append(("r",))
+                    self.reset_batch_stats()  # what LokyBackend / MultiprocessingBackend.terminate do
+
+            Ctl = CtlAuto  # noqa: F811
 
         def task(tid, fails):
             run.exec_count[tid] = run.exec_count.get(tid, 0) + 1
@@ -508,6 +575,7 @@ class Run:
                         self.idle_run = 0
                         self.midpull_closed = False
                         self.ev(f"call {cno}")
+                        self.ab_ops.append(("n", cno))
                         self.run_call(par, cno, base, call, src)
                         base += call.n
                 except HangDetected:
